@@ -57,6 +57,7 @@ type c24Req struct {
 	Res       []c24Res `json:"res,omitempty"`
 	ByID      bool     `json:"by_id,omitempty"` // Fetch v13 / Metadata v12: topics addressed by topic ID, name empty
 	Acks      int16    `json:"acks,omitempty"`
+	Mode      int      `json:"mode,omitempty"` // the kind's "mode" fields: validate-only, isolation level, include-authorized-ops, allow-auto-create, ...
 	Ts        int64    `json:"ts,omitempty"`
 }
 type c24Case struct {
@@ -226,6 +227,7 @@ func c24Build(r c24Req, ids map[string][16]byte) (kmsg.Request, int16) {
 		return kmsg.NewPtrApiVersionsRequest(), 0
 	case "FindCoordinator":
 		q := kmsg.NewPtrFindCoordinatorRequest()
+		q.CoordinatorType = int8(r.Mode & 1)
 		if len(r.Names) > 0 {
 			q.CoordinatorKey = r.Names[0]
 		}
@@ -245,6 +247,11 @@ func c24Build(r c24Req, ids map[string][16]byte) (kmsg.Request, int16) {
 			mt.Topic = kmsg.StringPtr(n)
 			q.Topics = append(q.Topics, mt)
 		}
+		q.AllowAutoTopicCreation = r.Mode&1 == 0
+		q.IncludeClusterAuthorizedOperations, q.IncludeTopicAuthorizedOperations = r.Mode&2 != 0, r.Mode&2 != 0
+		if r.Mode&2 != 0 {
+			return q, 8
+		}
 		return q, 4
 	case "Produce":
 		q := &kmsg.ProduceRequest{Acks: r.Acks, TimeoutMillis: 1000}
@@ -253,7 +260,7 @@ func c24Build(r c24Req, ids map[string][16]byte) (kmsg.Request, int16) {
 		}
 		return q, 3
 	case "Fetch":
-		q := &kmsg.FetchRequest{MaxWaitMillis: 0, MaxBytes: 1 << 20}
+		q := &kmsg.FetchRequest{MaxWaitMillis: 0, MaxBytes: 1 << 20, IsolationLevel: int8(r.Mode & 1)}
 		for _, n := range r.Names {
 			ft := kmsg.FetchRequestTopic{Topic: n, Partitions: []kmsg.FetchRequestTopicPartition{{Partition: 0, FetchOffset: 0, PartitionMaxBytes: 1 << 20}}}
 			if r.ByID {
@@ -289,12 +296,12 @@ func c24Build(r c24Req, ids map[string][16]byte) (kmsg.Request, int16) {
 		return q, 3
 	case "OffsetFetch":
 		q := kmsg.NewPtrOffsetFetchRequest()
-		q.Group = r.Names[0]
+		q.Group, q.RequireStable = r.Names[0], r.Mode&1 != 0
 		q.Topics = []kmsg.OffsetFetchRequestTopic{{Topic: "orders", Partitions: []int32{0}}}
 		return q, 5
 	case "DescribeGroups":
 		q := kmsg.NewPtrDescribeGroupsRequest()
-		q.Groups = r.Names
+		q.Groups, q.IncludeAuthorizedOperations = r.Names, r.Mode&1 != 0
 		return q, 4
 	case "DeleteGroups":
 		q := kmsg.NewPtrDeleteGroupsRequest()
@@ -311,19 +318,21 @@ func c24Build(r c24Req, ids map[string][16]byte) (kmsg.Request, int16) {
 		return q, 3
 	case "ListOffsets":
 		q := kmsg.NewPtrListOffsetsRequest()
-		q.ReplicaID = -1
+		q.ReplicaID, q.IsolationLevel = -1, int8(r.Mode&1)
 		for _, n := range r.Names {
 			q.Topics = append(q.Topics, kmsg.ListOffsetsRequestTopic{Topic: n, Partitions: []kmsg.ListOffsetsRequestTopicPartition{{Partition: 0, Timestamp: r.Ts, MaxNumOffsets: 1}}})
 		}
 		return q, 4
 	case "DescribeConfigs":
 		q := kmsg.NewPtrDescribeConfigsRequest()
+		q.IncludeSynonyms, q.IncludeDocumentation = r.Mode&1 != 0, r.Mode&2 != 0
 		for _, rs := range r.Res {
 			q.Resources = append(q.Resources, kmsg.DescribeConfigsRequestResource{ResourceType: kmsg.ConfigResourceType(rs.Type), ResourceName: rs.Name})
 		}
 		return q, 2
 	case "AlterConfigs":
 		q := kmsg.NewPtrAlterConfigsRequest()
+		q.ValidateOnly = r.Mode&1 != 0
 		for _, rs := range r.Res {
 			q.Resources = append(q.Resources, kmsg.AlterConfigsRequestResource{ResourceType: kmsg.ConfigResourceType(rs.Type), ResourceName: rs.Name,
 				Configs: []kmsg.AlterConfigsRequestResourceConfig{{Name: "retention.ms", Value: kmsg.StringPtr("12345")}}})
@@ -331,14 +340,14 @@ func c24Build(r c24Req, ids map[string][16]byte) (kmsg.Request, int16) {
 		return q, 1
 	case "CreatePartitions":
 		q := kmsg.NewPtrCreatePartitionsRequest()
-		q.TimeoutMillis = 1000
+		q.TimeoutMillis, q.ValidateOnly = 1000, r.Mode&1 != 0
 		for _, n := range r.Names {
 			q.Topics = append(q.Topics, kmsg.CreatePartitionsRequestTopic{Topic: n, Count: 3})
 		}
 		return q, 1
 	case "CreateTopics":
 		q := kmsg.NewPtrCreateTopicsRequest()
-		q.TimeoutMillis = 1000
+		q.TimeoutMillis, q.ValidateOnly = 1000, r.Mode&1 != 0
 		for _, n := range r.Names {
 			q.Topics = append(q.Topics, kmsg.CreateTopicsRequestTopic{Topic: n, NumPartitions: 1, ReplicationFactor: 1})
 		}
@@ -739,7 +748,7 @@ func c24GenRule(r *vRand) c24Rule {
 }
 
 func c24GenReq(r *vRand) c24Req {
-	q := c24Req{Kind: c24Kinds[r.Intn(len(c24Kinds))], Principal: c24Clients[r.Intn(len(c24Clients))]}
+	q := c24Req{Kind: c24Kinds[r.Intn(len(c24Kinds))], Principal: c24Clients[r.Intn(len(c24Clients))], Mode: r.Intn(4)}
 	pickTopics := func(lo, hi int, pool []string) []string {
 		n := r.Range(lo, hi)
 		var out []string
@@ -765,7 +774,8 @@ func c24GenReq(r *vRand) c24Req {
 		q.Names = pickTopics(1, 3, named)
 	case "ListOffsets":
 		q.Names = pickTopics(1, 3, named)
-		q.Ts = []int64{-1, -2}[r.Intn(2)]
+		// every timestamp class: latest, earliest, zero, a real time, far future, other negatives
+		q.Ts = []int64{-1, -2, -1, -2, 0, 1700000000000, 1 << 62, -3, -100}[r.Intn(9)]
 	case "FindCoordinator", "JoinGroup", "SyncGroup", "Heartbeat", "LeaveGroup", "OffsetCommit", "OffsetFetch":
 		q.Names = pickTopics(1, 1, c24Groups)
 	case "DescribeGroups", "DeleteGroups":
@@ -853,6 +863,13 @@ func c24Gen(r *vRand) c24Case {
 			continue // not listed at all
 		}
 		p := c24Principal{Name: n, Allow: []c24Rule{}, Deny: []c24Rule{}}
+		if r.Chance(25) {
+			// exactly ONE permission, on everything of its resource kind
+			one := [][2]string{{"produce", "topic"}, {"fetch", "topic"}, {"group_read", "group"}, {"group_write", "group"}, {"group_admin", "group"}, {"admin", "cluster"}}[r.Intn(6)]
+			p.Allow = append(p.Allow, c24Rule{A: one[0], R: one[1], N: "*"})
+			c.Principals = append(c.Principals, p)
+			continue
+		}
 		if r.Chance(30) {
 			// deny-list shape: a wildcard (or no) allow plus a deny that depends on the concrete name
 			act := []string{"fetch", "produce", "*"}[r.Intn(3)]
@@ -967,7 +984,7 @@ func c24Coq(c c24Case, st c24Step) string {
 }
 
 func TestVerifC24(t *testing.T) {
-	rep := vNewReport("C24", "request sequences (4-14 requests over all 21 kinds Handle accepts, 1-3 topics/groups/config resources each incl. repeated, non-existent, empty and blank names; acks -1/1/0) from principals p1-p3 with 0-4 generated allow rules and 0-1 deny rules each (actions x resources x exact / prefix / star names, or not listed at all), an unknown principal and the anonymous one, default policy deny or allow, auto-create on/off, admin APIs on/off, through the real handler.Handle on an in-memory store + in-memory S3; non-trivial = the sequence contains a denied request and a request that changed the state; distinct = distinct canonical JSON")
+	rep := vNewReport("C24", "request sequences (4-14 requests over all 21 kinds Handle accepts, 1-3 topics/groups/config resources each incl. repeated, non-existent, empty and blank names; acks -1/1/0, every ListOffsets timestamp class, validate-only / isolation-level / include-authorized-ops / allow-auto-create mode bits) from principals p1-p3 with 0-4 generated allow rules and 0-1 deny rules each (actions x resources x exact / prefix / star names, or not listed at all), an unknown principal and the anonymous one, default policy deny or allow, auto-create on/off, admin APIs on/off, through the real handler.Handle on an in-memory store + in-memory S3; non-trivial = the sequence contains a denied request and a request that changed the state; distinct = distinct canonical JSON")
 	var coq, jsons []string
 	runOne := func(c c24Case) {
 		c.Kind = "dispatch"
@@ -1050,6 +1067,21 @@ func TestVerifC24(t *testing.T) {
 			c24Case{Default: "deny", AutoCreate: true, AdminAPIs: true, Principals: []c24Principal{{Name: "p1", Allow: []c24Rule{{"fetch", "topic", "*"}}, Deny: []c24Rule{}}},
 				Reqs: []c24Req{{Kind: "Fetch", Principal: "p1", Names: []string{"sneaky"}}, {Kind: "ListOffsets", Principal: "p1", Names: []string{"sneaky2"}, Ts: -2}, {Kind: "Fetch", Principal: "p1", Names: []string{"orders", "sneaky"}}}},
 		)
+		// one permission only x every ListOffsets timestamp class / request mode x missing and existing topics
+		for _, one := range [][2]string{{"fetch", "topic"}, {"produce", "topic"}, {"admin", "cluster"}, {"group_write", "group"}} {
+			cs := c24Case{Default: "deny", AutoCreate: true, AdminAPIs: true, Principals: []c24Principal{{Name: "p1", Allow: []c24Rule{{one[0], one[1], "*"}}, Deny: []c24Rule{}}}}
+			for i, ts := range []int64{-1, -2, 0, 1700000000000, 1 << 62, -3} {
+				cs.Reqs = append(cs.Reqs, c24Req{Kind: "ListOffsets", Principal: "p1", Names: []string{fmt.Sprintf("missing%d", i)}, Ts: ts, Mode: i & 1},
+					c24Req{Kind: "ListOffsets", Principal: "p1", Names: []string{"orders"}, Ts: ts})
+			}
+			for m := 0; m < 4; m++ {
+				cs.Reqs = append(cs.Reqs, c24Req{Kind: "Fetch", Principal: "p1", Names: []string{fmt.Sprintf("missingf%d", m)}, Mode: m},
+					c24Req{Kind: "Metadata", Principal: "p1", Names: []string{fmt.Sprintf("missingm%d", m)}, Mode: m},
+					c24Req{Kind: "CreateTopics", Principal: "p1", Names: []string{fmt.Sprintf("missingc%d", m)}, Mode: m},
+					c24Req{Kind: "OffsetForLeaderEpoch", Principal: "p1", Names: []string{fmt.Sprintf("missingo%d", m)}, Mode: m})
+			}
+			corpus = append(corpus, cs)
+		}
 		for _, c := range corpus {
 			runOne(c)
 		}
